@@ -55,7 +55,8 @@ def cases(tier, seed):
     n, per, nc = (20, 20, 36) if tier == "quick" else (600, 32, 1500)
     out = [{"kind": "mol", "seed": seed * 5003 + i, "n": per} for i in range(n)]
     out += [{"kind": "complex", "seed": seed * 6007 + i, "variant": ["plain", "collide", "nocollide", "waterH",
-                                                                     "ions", "waterclash"][i % 6]} for i in range(nc)]
+                                                                     "ions", "waterclash", "ligaltloc"][i % 7]}
+            for i in range(nc)]
     return out
 
 
@@ -235,6 +236,25 @@ def run_complex(spec, res):
            for _ in range(nw)]
     entries.append({"id": "W", "start": 401, "residues": wat})
     items, truth = S.assemble(entries)
+    if variant == "ligaltloc":
+        # the ligand (and a few protein atoms) carry alternate locations A/B: the first one counts, once
+        out_items = []
+        for it in items:
+            if isinstance(it, dict) and (it["resn"] == "LIG" or (it["name"] in ("CB", "OG", "CG") and rng.random() < 0.3)):
+                blocked = False
+                out_items.append(dict(it, alt="A", occ=0.6))
+                out_items.append(dict(it, alt="B", occ=0.4, x=it["x"] + 0.4, y=it["y"] - 0.3, z=it["z"] + 0.2))
+            else:
+                out_items.append(it)
+        if rng.random() < 0.5:
+            # blocked layout: all A records of the ligand, then all B records
+            lig = [it for it in out_items if isinstance(it, dict) and it["resn"] == "LIG"]
+            first = out_items.index(lig[0])
+            rest = [it for it in out_items if not (isinstance(it, dict) and it["resn"] == "LIG")]
+            k = rest.index(out_items[first - 1]) + 1 if first > 0 else 0
+            out_items = rest[:k] + [it for it in lig if it["alt"] == "A"] + [it for it in lig if it["alt"] == "B"] + rest[k:]
+        items = out_items
+        pdbfmt.renumber(items)
     text = pdbfmt.to_text(items)
     ff = rng.choice(["AMBER", "PARSE", "CHARMM"])
     opts = [f"--ff={ff}", "--ligand={dir}/lig.mol2"]
